@@ -184,7 +184,7 @@ impl Check for C01 {
     }
     fn cases(&self, tier: Tier) -> u32 {
         match tier {
-            Tier::Quick => 4000,
+            Tier::Quick => 8000,
             Tier::Thorough => 120_000,
         }
     }
